@@ -10,6 +10,8 @@ import re
 HERE = os.path.dirname(os.path.abspath(__file__))
 VERIF = os.path.dirname(HERE)
 sys.path.insert(0, VERIF)
+# VERIF_OUT redirects evidence/ and replays/ (used only by the seeded-change sweep so that it never overwrites real evidence)
+OUT = os.environ.get('VERIF_OUT', VERIF)
 
 EXIT_HELD, EXIT_VIOLATION, EXIT_UNDECIDED, EXIT_ERROR = 0, 1, 2, 3
 NATIVE_PY = '/venv/bin/python'
@@ -35,7 +37,11 @@ def replay_native(spec_path, timeout=300):
     env.pop('PYTHONPATH', None)
     try:
         p = subprocess.run([NATIVE_PY, os.path.join(HERE, 'native_run.py'), spec_path], capture_output=True, text=True, timeout=timeout, env=env)
-        return p.returncode, (p.stdout + p.stderr)[-4000:]
+        rc = p.returncode
+        # exit 1 counts as a reproduced failure only with the runner's own verdict (an interpreter traceback also exits 1)
+        if rc == 1 and '"verdict": "violated"' not in p.stdout:
+            rc = 3
+        return rc, (p.stdout + p.stderr)[-4000:]
     except subprocess.TimeoutExpired:
         return 3, 'replay timed out'
 
@@ -159,8 +165,8 @@ def main():
     from contracts.index import MODULES, PROPERTIES
     from contracts.index import A_PY, A_REAL, A_NUMPY, A_UNITS
     info = PROPERTIES.get(prop) or dict(level='proof', trusted=[A_PY, A_REAL, A_NUMPY, A_UNITS], assumptions=[A_PY, A_REAL, A_NUMPY, A_UNITS])
-    os.makedirs(os.path.join(VERIF, 'evidence'), exist_ok=True)
-    os.makedirs(os.path.join(VERIF, 'replays'), exist_ok=True)
+    os.makedirs(os.path.join(OUT, 'evidence'), exist_ok=True)
+    os.makedirs(os.path.join(OUT, 'replays'), exist_ok=True)
     E = Engine(repo_path(), seed=seed, tier=tier)
     errors = []
     for m in MODULES:
@@ -232,7 +238,7 @@ def main():
         reported.add(key)
         nrep += 1
         fname = re.sub(r'[^A-Za-z0-9_.-]+', '_', f'{prop}-{o.contract}-{o.case}-{o.name}')[:150] + '.json'
-        path = os.path.join(VERIF, 'replays', fname)
+        path = os.path.join(OUT, 'replays', fname)
         case_kwargs = o.case_kwargs
         fix_trig(o)
         spec = {'property': prop, 'obligation': o.fullname, 'contract': o.contract, 'module': o.module, 'target': o.target,
@@ -243,7 +249,7 @@ def main():
         rc, out = replay_native(path)
         spec['native_replay'] = {'exit': rc, 'output': out[-3000:]}
         json.dump(spec, open(path, 'w'), indent=1, default=repr)
-        rel = os.path.relpath(path, VERIF)
+        rel = os.path.relpath(path, OUT)
         if rc == 1:
             lines.append(f'VIOLATION property={prop} replay={rel}')
         else:
@@ -283,7 +289,7 @@ def main():
         ev['coverage']['evaluations'] = sum(b.get('evaluations', 0) for b in bounded)
         ev['coverage']['distinct_nontrivial'] = sum(b.get('distinct_nontrivial', 0) for b in bounded)
         ev['coverage']['rule'] = '; '.join(b.get('rule', '') for b in bounded)
-    json.dump(ev, open(os.path.join(VERIF, 'evidence', f'{prop}.json'), 'w'), indent=1, default=repr)
+    json.dump(ev, open(os.path.join(OUT, 'evidence', f'{prop}.json'), 'w'), indent=1, default=repr)
     for l in sorted(set(known_lines)):
         print(l)
     for o in undecided:
